@@ -31,6 +31,7 @@ import ZoektModel.C01.Lemmas
 import ZoektModel.C01.IterLemmas
 import ZoektModel.C01.IterSpec
 import ZoektModel.C01.DocIterLemmas
+import ZoektModel.C01.SubstrLemmas
 namespace ZoektModel.C01
 
 /-- **one `evalMatchTree` call** on a consistent tree: the tree stays consistent, its plain value is unchanged, a decided
@@ -209,6 +210,77 @@ example : ((mkIter exTexts exPat 0 1).prepare 0).candidates.1 = [1] ∧
     ((mkIter exTexts exPat 1 1).prepare 2).candidates.1 = [3] := by decide
 example : (mkIter exTexts exPat 0 1).Inv exTexts exPat 0 0 :=
   mkIter_inv exTexts exPat 0 1 (by decide) (by decide) (by decide)
+
+/-- **`substr_nextDoc_sound`**: the hypothesis of `nextDoc_sound` about substring leaves, discharged for real iterators:
+    a case-sensitive substring leaf over the true posting lists (any trigram choice, any state along a search) never
+    lets `nextDoc` skip a document in which its pattern occurs -/
+theorem substr_nextDoc_sound (ctx : Ctx) (hw : ctx.WF) (L : Nat) (s : Sub) (h : SubOk ctx L s) :
+    SubSound (subSemX ctx) L s :=
+  subOk_sound ctx hw L s h
+
+/-- **`substr_prepare_exact`**: after `prepare(d)` the plain value of a substring leaf (some candidate passes
+    `matchContent`) is exactly "the pattern occurs in document `d`" -/
+theorem substr_prepare_exact (ctx : Ctx) (hw : ctx.WF) (L : Nat) (s : Sub) (h : SubOk ctx L s) (nd : Nat) (hL : L ≤ nd)
+    (hnd : nd < ctx.live.length) :
+    (s.prepare nd).val ctx nd = occurs s.caseSens s.pat (ctx.text s.fileName nd) := by
+  rw [(Sub.prepare_ok ctx hw L s h nd hL hnd).2.1, subSemX_eq_occurs ctx L s h nd]
+
+/-- **`C01_search_exact_substring`**: for every shard (names, contents, liveness) and every match tree whose leaves are
+    case-sensitive substring atoms backed by the true posting lists (ANY selected trigram positions `i ≤ j`; or the
+    `noMatchTree` iterator when the pattern occurs nowhere), document predicates (branch, repository, language,
+    metadata, set filters), const and engine-decided atoms, combined by and / or / not / type / boost:
+    `Search` (prune + document loop + nextDoc + staged evaluation + iterators + verification) returns exactly the
+    live documents on which the SCAN meaning `MT.ref` (Spec.lean: substring atoms by scanning every offset of the text)
+    is true, and never reaches the `did not decide` panic; a tree pruned to `nil` is false on every document. -/
+theorem C01_search_exact_substring (ctx : Ctx) (hw : ctx.WF) (t0 : MT) (h0 : t0.OkS ctx 0) :
+    match search ctx t0 with
+    | Option.none => ∀ d, t0.ref ctx d = false
+    | some o => o.res = expected ctx t0 ∧ o.panicked = false := by
+  have hp := MT.prune_spec (subSemX ctx) (fun _ _ => true)
+    (fun s hs d => by simp [subSemX, hs]) (fun _ _ _ _ => rfl) t0
+  unfold search
+  cases hpr : t0.prune with
+  | none =>
+    rw [hpr] at hp
+    intro d
+    rw [MT.ref_eq_semS ctx 0 d t0 h0]; exact hp d
+  | some t =>
+    rw [hpr] at hp
+    simp only []
+    have hok := MT.prune_okS ctx 0 t0 h0 t hpr
+    have := search_loop_exact ctx (fun d => semS ctx d t) _ (loopHyp_substr ctx hw t) t ⟨hok, fun _ => rfl⟩
+    refine ⟨?_, this.2⟩
+    rw [this.1]
+    unfold expected
+    congr 1
+    funext d
+    rw [MT.ref_eq_semS ctx 0 d t0 h0, show semS ctx d t = semS ctx d t0 from hp d]
+
+/-! non-vacuity: contents "xabcd", "", "abcabcd"; tree and[substr "abcd" (trigrams 0 and 1), not(name-substr "zzz" whose
+    trigram is absent), or[doc-predicate, substr "bca" (single trigram)]] -/
+def exCtxS : Ctx := ⟨[[110], [111], [112]], exTexts, [true, true, true]⟩
+def exTreeS : MT :=
+  .and Option.none (.cons (.sub (mkSub exCtxS false exPat 0 1))
+    (.cons (.not Option.none (.sub ⟨true, true, [122, 122, 122], Option.none, [], false⟩))
+      (.cons (.or Option.none (.cons (.doc false [true, false, false] false 0)
+        (.cons (.sub (mkSub exCtxS false [98, 99, 97] 0 0)) .nil))) .nil)))
+example : exCtxS.WF := ⟨rfl, rfl⟩
+example : exTreeS.OkS exCtxS 0 := by
+  refine ⟨mkSub_ok exCtxS false exPat 0 1 (by decide) (by decide) (by decide), ⟨rfl, by decide, ?_⟩,
+    ⟨fun h => by simp at h, mkSub_ok exCtxS false [98, 99, 97] 0 0 (by decide) (by decide) (by decide), trivial⟩, trivial⟩
+  intro d o h
+  unfold occAt at h
+  have : (exCtxS.texts true).getD d [] = [110] ∨ (exCtxS.texts true).getD d [] = [111] ∨
+      (exCtxS.texts true).getD d [] = [112] ∨ (exCtxS.texts true).getD d [] = [] := by
+    match d with
+    | 0 => simp [exCtxS, Ctx.texts]
+    | 1 => simp [exCtxS, Ctx.texts]
+    | 2 => simp [exCtxS, Ctx.texts]
+    | _ + 3 => simp [exCtxS, Ctx.texts]
+  have hl := (List.isPrefixOf_iff_prefix.mp h).length_le
+  rw [List.length_drop] at hl
+  rcases this with e | e | e | e <;> rw [e] at hl <;> simp at hl <;> omega
+example : expected exCtxS exTreeS = [0, 2] := by decide
 
 /-! non-vacuity: a shard of 5 documents (document 3 dead), tree `and[doc-predicate, not(regexp verdicts), or[branch, none]]` -/
 def exCtx : Ctx := ⟨[[97], [98], [99], [100], [101]], [[], [], [], [], []], [true, true, true, false, true]⟩
